@@ -780,6 +780,18 @@ impl<'a> Interp<'a> {
                         if nc > 0 && pi < 2 {
                             self.probe(Probe::DriverErrorInsideTriple);
                         }
+                        if self.inp.continue_after_error {
+                            // the call was made and failed: no answer, the outputs keep the
+                            // values of the latest answer that was received; the rows that are
+                            // still pending (rest of the clock triple, further X assignments)
+                            // and the statements that follow are the prescribed ones (C15:
+                            // the rows do not depend on what the driver returns)
+                            let mut step = mk(RefItem::DriverErr(id), &env);
+                            step.continues = true;
+                            self.steps.push(step);
+                            sub += 1;
+                            continue;
+                        }
                         self.steps.push(mk(RefItem::DriverErr(id), &env));
                         return Err(Stop::DriverErr(id));
                     }
